@@ -1,10 +1,10 @@
 """C17 File readers return exactly the stored numbers at the right configurations (openQCD binary formats)."""
 import itertools
 
-from props import readers, sfcf
+from props import readers, sfcf, hadrons
 from props.readers import h_read  # noqa
 
-HARNESSES = dict(read=h_read, sfcf=sfcf.h_read, sfcf_multi=sfcf.h_multi)
+HARNESSES = dict(read=h_read, sfcf=sfcf.h_read, sfcf_multi=sfcf.h_multi, hd5=hadrons.h_hd5)
 
 PROPERTY = 'C17'
 OPTS = dict(timeout=60000, maxpaths=200)
@@ -46,6 +46,12 @@ def jobs(tier, seed):
     for fmt in ('rwms16', 'qtop'):
         add(fmt=fmt, reps=['r0'], nrec=[8], first=[1], step=[1], sel=dict(r_start=[2], r_stop=[7]))
         add(fmt=fmt, reps=['r0', 'r1'], nrec=[8, 7], first=[1, 1], step=[1, 1], sel=dict(r_start=[3, None], r_stop=[8, 6]))
+    # files that start after a thermalisation phase (first label a multiple > 1 of the spacing): configurations are counted from 1, selections refer to these numbers
+    for fmt in ('qtop', 'rwms16', 'rwms20', 'sfqcd'):
+        pp = dict(p=dict(ncs=1, tmax=2, index_aim=1)) if fmt == 'sfqcd' else {}
+        add(fmt=fmt, reps=['r0'], nrec=[7], first=[6], step=[2], **pp)
+        add(fmt=fmt, reps=['r0'], nrec=[8], first=[9], step=[3], sel=dict(r_start=[2], r_stop=[7]), **pp)
+        add(fmt=fmt, reps=['r0', 'r1'], nrec=[8, 7], first=[4, 10], step=[2, 5], sel=dict(r_start=[None, 2], r_stop=[6, None]), **pp)
     add(fmt='rwms16', reps=['r0'], nrec=[12], first=[1], step=[1], sel=dict(r_start=[2], r_stop=[12], r_step=2))
     add(fmt='rwms20', reps=['r0'], nrec=[11], first=[1], step=[1], sel=dict(r_stop=[11], r_step=2))
     # sfcf text formats: compact, folder and appended layout; every requested correlator kind; shuffled listings; replica numbers r2 / r10
@@ -64,6 +70,7 @@ def jobs(tier, seed):
             for fo in ('lex', 'desc'):
                 J.append(dict(harness='sfcf', params=dict(layout=lay, names=['f_A', 'f_1'], req=['f_A', 0, None], perm=2, files=fo, reps=['r0', 'r1'], cfgs=[list(range(7, 13)), list(range(8, 14))])))
             J.append(dict(harness='sfcf', params=dict(layout=lay, names=['f_A', 'f_1'], req=['f_A', 0, None], perm=4, files=True, reps=['r0', 'r1'], cfgs=[list(range(1, 11)), list(range(1, 12))])))
+    J.extend(hadrons.jobs(tier))
     return J
 
 
@@ -75,6 +82,10 @@ def apply_canary(name):
         return mutate('pyerrors.input.openQCD', 'read_rwms', 'deltas[k].append(tmp_array[k][r_start_index[rep]:r_stop_index[rep] + 1][::r_step])', 'deltas[k].append(tmp_array[k][r_start_index[rep]:r_stop_index[rep]][::r_step])')
     if name == 'flow-block':
         return mutate('pyerrors.input.openQCD', '_read_flow_obs', "Q_top.append(Q_sum[dtr_cnfg * i][index_aim])", "Q_top.append(Q_sum[dtr_cnfg * i][index_aim - 1])")
+    if name == 'hd5-lexsort':
+        return mutate('pyerrors.input.hadrons', '_get_files', 'files.sort(key=get_cnfg_number)', 'files.sort()')
+    if name == 'hd5-entry':
+        return mutate('pyerrors.input.hadrons', 'read_hd5', 'entry = group + f"_{attrs}"', 'entry = group + "_0"')
     raise KeyError(name)
 
 
@@ -83,6 +94,8 @@ def _cj(**p):
 
 
 CANARIES = [
+    dict(name='hd5-lexsort', what='hdf5 files ordered lexicographically instead of by configuration number', jobs=lambda tier, seed: [dict(harness='hd5', params=dict(cfgs=[8, 9, 10, 11, 12], perm=7, entry=1))]),
+    dict(name='hd5-entry', what='hdf5 entry index ignored', jobs=lambda tier, seed: [dict(harness='hd5', params=dict(cfgs=[1, 2, 3, 4, 5], entry=1, how='index'))]),
     dict(name='second-block', what='wrong block of a reweighting record used', quick=True, jobs=_cj(fmt='rwms16', reps=['r0'], nrec=[5], first=[1], step=[1])),
     dict(name='stop-index', what='off-by-one in r_stop', jobs=_cj(fmt='rwms16', reps=['r0'], nrec=[8], first=[1], step=[1], sel=dict(r_start=[2], r_stop=[7]))),
     dict(name='flow-block', what='wrong flow time selected', jobs=_cj(fmt='qtop', reps=['r0'], nrec=[5], first=[1], step=[1], p=dict(nn=2, tmax=3, index_aim=1))),
@@ -95,7 +108,7 @@ META = dict(
                 'selected flow time, real / imaginary part of the selected correlator).',
     bounds='1-3 replicas (suffixes with different digit counts, every / 3 directory-listing permutations), 5-12 records, first configuration and spacing from {1,2,3,4,10}, 1-2 factors, 1-3 sources, 1-2 reweighting '
            'factors, 3 flow times x 3 timeslices, 5 of the 12 ms5_xsf correlators; r_start / r_stop / r_step selections. sfcf: 2-3 replicas (r2 / r10 / r1), 5-11 configurations, T = 2-3, correlators f_A (bi, wf 0/1), f_1 (bb, wf2 0/1), F_V0 (bib, wf2 0/1), real / imaginary part, explicit file lists.',
-    outside=['Hadrons hdf5 (h5py: numbers cannot pass it symbolically) - not applicable', 'sfcf version 0.0, read_sfcf_multi with several names in one call', 'extract_t0 / extract_w0 beyond their fit contract', 'real file system'],
-    stubs=['open / fp.read / struct.unpack / os.walk -> typed-buffer file model', 'sfcf: open / os.walk -> in-memory text tree, float -> token table', 'numpy shim', 'exp uninterpreted'],
+    outside=['Hadrons hdf5: read_hd5 / read_meson_hd5 are covered on a structural model of h5py (props/hadrons.py); the other hdf5 readers (DistillationContraction, ExternalLeg, Bilinear, Fourquark, extract_t0_hd5) are not', 'sfcf version 0.0, read_sfcf_multi with several names in one call', 'extract_t0 / extract_w0 beyond their fit contract', 'real file system'],
+    stubs=['open / fp.read / struct.unpack / struct.unpack_from / os.walk -> typed-buffer file model', 'hdf5: h5py.File / os.listdir / np.array of per-file complex arrays -> tree-of-groups model with symbolic complex datasets (replay writes real hdf5 files with h5py)', 'sfcf: open / os.walk -> in-memory text tree, float -> token table', 'numpy shim', 'exp uninterpreted'],
     assumptions=[],
 )
